@@ -441,6 +441,15 @@ theorem f10_fixed_ok :
       (r.2.getD 10 0, sumIn ⟨11, 20, 1000, 1⟩ 1 r.2, blocksOK f10Periods 1 r.2)) = some (100, 1000, true) := by
   decide
 
+/-- Why `periodsDisjoint` is a hypothesis: with overlapping periods the repaired code still carries
+    the accumulator into the other period when the switch is not at a start block
+    (A = [1..10] mod 4 listed before B = [5..20] mod 1: block 11 creates 200, B's share is 100).
+    Residual observation, outside the envelope; not generated by the harness. -/
+theorem overlap_residual :
+    (run true [⟨1, 10, 1000, 4⟩, ⟨5, 20, 1600, 1⟩] 1 0 (List.replicate 12 ⟨true, [1000000], 0⟩)).toOption.map
+      (fun r => (r.2.getD 10 0, blocksOK [⟨1, 10, 1000, 4⟩, ⟨5, 20, 1600, 1⟩] 1 r.2)) = some (200, false) := by
+  decide
+
 /- non-vacuity of the hypotheses -/
 example : inEnvelope f10Periods = true := by decide
 example : periodsDisjoint f10Periods := by decide
